@@ -230,7 +230,8 @@ def _events(env):
     pyhf.events.subscribe("tensorlib_changed")(pr.t)
     pyhf.events.subscribe("optimizer_changed")(pr.o)
     A, A2, Bk = sym_backend("A"), sym_backend("A"), sym_backend("B")
-    steps = [(("numpy", None, "64b"), False), (("numpy", None, "32b"), True), (("numpy", None, "32b"), False), ((A, None, None), True),
+    steps = [(("numpy", None, "64b"), False), (("numpy", None, "32b"), True), (("numpy", None, "64b"), True), (("numpy", None, "32b"), True),
+             (("numpy", None, "32b"), False), ((A, None, None), True),
              ((A2, None, None), False), ((Bk, None, None), True), (("numpy", None, None), True)]
     for k, ((b, o, p), expect) in enumerate(steps):
         before = count["t"]
